@@ -81,8 +81,40 @@ class _Recorder:
         self._log.append((self._s.tell(), bytes(data)))
         return self._s.write(data)
 
+    def truncate(self, size=None):
+        # a file-mutating call that is not a write (the unchanged put() makes none): kept in program order
+        self._log.append(("truncate", self._s.tell() if size is None else size))
+        return self._s.truncate(size)
+
     def __getattr__(self, name):
         return getattr(self._s, name)
+
+
+def only_writes(stream):
+    return [op for op in stream if op[0] != "truncate"]
+
+
+def apply_ops(base: bytes, stream, k: int, j: int) -> bytes:
+    """the file when the first k file-mutating calls of the session took effect completely and, if call k is a write,
+    its first j bytes (generalises apply_stream to streams that also resize the file)"""
+    buf = bytearray(base)
+
+    def wr(off, data):
+        if off > len(buf):
+            buf.extend(b"\x00" * (off - len(buf)))
+        buf[off:off + len(data)] = data
+    for op in stream[:k]:
+        if op[0] == "truncate":
+            n = op[1]
+            if n <= len(buf):
+                del buf[n:]
+            else:
+                buf.extend(b"\x00" * (n - len(buf)))
+        else:
+            wr(op[0], op[1])
+    if k < len(stream) and stream[k][0] != "truncate" and j > 0:
+        wr(stream[k][0], stream[k][1][:j])
+    return bytes(buf)
 
 
 def record_session(path: Path, s: dict, existing: bool = False):
